@@ -1,5 +1,6 @@
 import BeffVerif.Driver.Codec
 import BeffVerif.Model.Schema
+import BeffVerif.Model.JsonSchema
 import BeffVerif.Model.RTPred
 /-! Driver handler for `(schema-ctx <env> (<rt>*) <template> <container|none> ((name idx)*) (<call idx>*) <docs>)` (C02, C16). -/
 namespace BeffVerif.Driver
@@ -10,8 +11,35 @@ def exportDefs (container : Option String) (c : SCtx) : JsVal :=
   | none => .obj c.collected
   | some k => .obj [(k, .obj c.collected)]
 
+/-- does a schema use `pattern` or `format` anywhere (a key of that name at any depth)? Those two keywords are parameters
+of the Lean evaluator, so its verdicts on such schemas are not compared -/
+def mentionsPF : Nat → JsVal → Bool
+  | 0, _ => true
+  | n+1, .obj kvs => kvs.any (fun p => p.1 == "pattern" || p.1 == "format" || mentionsPF n p.2)
+  | n+1, .arr xs => xs.any (mentionsPF n)
+  | _+1, _ => false
+
+/-- the verdicts of the Lean JSON-Schema evaluator (`JS.valid`, the reference of Props/C02*.lean) on the request's
+documents: the flat schema of parser 0, and its contextual schema with the definitions of a fresh context. `t` / `f`,
+`-` where nothing is compared (printing threw, pattern / format, template not a JSON pointer), `?` out of fuel -/
+def jsvRows (env : Env) (rts : List RT) (template : String) (overrides : List (String × RT)) (docs : List JsVal) : Sexp :=
+  let bit (r : Option Bool) : String := match r with | some true => "t" | some false => "f" | none => "?"
+  let P0 : JS.Params := ⟨[], fun _ => none, fun _ _ => false, fun _ _ => false⟩
+  let rt0 := rts.headD .any
+  let flatRow : String := match schema env ⟨false, "", []⟩ 300 rt0 none [] ⟨[], []⟩ with
+    | .ok s _ => if mentionsPF 200 s then "-" else String.join (docs.map fun d => bit (JS.valid P0 400 s d))
+    | _ => "-"
+  let ctxRow : String := match schema env ⟨true, template, overrides⟩ 300 rt0 none [] ⟨[], []⟩ with
+    | .ok s c =>
+      if !template.startsWith "#/" || mentionsPF 200 s || mentionsPF 200 (.obj c.collected) then "-" else
+      let P : JS.Params := ⟨c.collected, fun r => (c.collected.find? (fun p => getRef template p.1 == r)).map (·.1),
+        fun _ _ => false, fun _ _ => false⟩
+      String.join (docs.map fun d => bit (JS.valid P 400 s d))
+    | _ => "-"
+  .list [.atom "jsv", .str flatRow, .str ctxRow]
+
 def schemaCtxOp (envS : Sexp) (rtsS : List Sexp) (template : String) (container : Option String)
-    (ovS : List Sexp) (callsS : List Sexp) : Sexp :=
+    (ovS : List Sexp) (callsS : List Sexp) (docsS : List Sexp := []) : Sexp :=
   match decEnv envS, rtsS.mapM decRT, callsS.mapM Sexp.natOf with
   | some env, some rts, some calls =>
     let overrides : List (String × RT) := ovS.filterMap fun o => match o with
@@ -34,7 +62,8 @@ def schemaCtxOp (envS : Sexp) (rtsS : List Sexp) (template : String) (container 
           let c' : SCtx := { c with inProgress := [] }
           (acc.1 ++ [.list [.list [.atom "throw"], encVal (exportDefs container c')]], c')
         | .nofuel => (acc.1 ++ [.atom "model-nofuel"], acc.2)) ([], ⟨[], []⟩)
-    .list [.atom "sc", .list (.atom "flat" :: flat), .list (.atom "calls" :: outs)]
+    .list [.atom "sc", .list (.atom "flat" :: flat), .list (.atom "calls" :: outs),
+      jsvRows env rts template overrides (docsS.filterMap decVal)]
   | _, _, _ => .list [.atom "model-decode-error"]
 
 /-- hypotheses violated by a schema request (second channel) -/
